@@ -35,9 +35,12 @@ def somes(ev):
 
 # The oracle decides by exact magnitude.  It also notes whether an INTERMEDIATE of the documented computation (a
 # difference, the sum of the two middle elements of a median) exceeds the float range: there numpy/Python produce inf
-# (and inf/inf = nan) although inputs and the documented change are finite.  A disagreement on such a case is a
-# candidate finding (counted, witness kept in the evidence notes), an exception is a violation like everywhere else.
+# (and inf/inf = nan) although inputs and the documented change are finite.  An ANSWER disagreement on such a case is
+# reported under the key of the recorded known finding OVERFLOW_KEY (the driver prints KNOWN-FINDING); it is kept away
+# from the Coq model (exact rationals: the double range is not modelled).  An exception on such inputs, and any answer
+# disagreement without an out-of-range exact intermediate, keep their ordinary keys and are violations.
 FLOAT_MAX = Fraction(sys.float_info.max)
+OVERFLOW_KEY = "answer-intermediate-overflow-beyond-double-range"  # known finding (known_findings.txt)
 _RISK = [False]
 
 
@@ -442,7 +445,7 @@ def first_failure_crit(case, impl=None):
         if isinstance(a, tuple):
             return (f"raises-{kind}-{a[1]}", f"{KINDS[kind][1]}.check_termination raised {a[1]} on a finite history (evaluation #{i})", i)
         if a != s and _RISK[0]:
-            return ("candidate", f"{KINDS[kind][1]} answered {a} at evaluation #{i}; the documented change measure (exact) says {s}; an intermediate sum/difference exceeds the float range", i)
+            return (OVERFLOW_KEY, f"{KINDS[kind][1]} answered {a} at evaluation #{i}; the documented change measure (exact) says {s}; an exact intermediate (middle-pair sum or difference) exceeds the double range", i)
         if a != s:
             return (f"answer-{kind}-{'premature' if a else 'missed'}",
                     f"{KINDS[kind][1]} answered {a} at evaluation #{i}; the documented change measure says {s}", i)
@@ -467,7 +470,7 @@ def first_failure_spsa(case, impl=None):
         if isinstance(a["answer"], tuple):
             return (f"raises-spsa-{a['answer'][1]}", f"SPSATerminationChecker.termination_check raised {a['answer'][1]} on finite inputs (callback #{i})", i)
         if a["answer"] != s["answer"] and _RISK[0]:
-            return ("candidate", f"SPSATerminationChecker answered {a['answer']} at callback #{i}; exact magnitude says {s['answer']}; a difference exceeds the float range", i)
+            return (OVERFLOW_KEY, f"SPSATerminationChecker answered {a['answer']} at callback #{i}; exact magnitude says {s['answer']}; an exact difference exceeds the double range", i)
         if a["answer"] != s["answer"]:
             tag = "run-boundary" if case.get("boundary_witness") else ("premature" if a["answer"] else "missed")
             # a corpus history that reproduces a listed known finding is reported under that finding's own key
@@ -541,12 +544,13 @@ def do_case(ctx, case, count=True):
     impl = impl_crit(case) if case["type"] == "crit" else impl_spsa(case)
     f = first_failure(case, impl)
     label = case["kind"] if case["type"] == "crit" else "spsa"
-    if isinstance(f, tuple) and f[0] == "candidate":
-        # HEAD answers against the exact magnitude because an intermediate overflowed: candidate finding, not demanded
-        ctx.tally("candidate-finding:intermediate-overflow")
-        ctx.notes.setdefault("candidate_findings", [])
-        if len(ctx.notes["candidate_findings"]) < 3:
-            ctx.notes["candidate_findings"].append(dict(what=f[1], case=case, implementation=impl))
+    if isinstance(f, tuple) and f[0] == OVERFLOW_KEY:
+        # HEAD answers against the exact magnitude because an intermediate left the double range: recorded known finding;
+        # decided by the oracle only, not compared with the (exact-rational) model
+        ctx.tally("known-finding:intermediate-overflow")
+        small = shrink(case, f[0])
+        f = first_failure(small) if small != case else f
+        ctx.violation("oracle", f[0], f[1], small, detail=dict(original_case=case, implementation=impl_crit(small) if small["type"] == "crit" else impl_spsa(small)))
         return None
     if case.get("family") == "extreme" or (case["type"] == "spsa" and case.get("family") == "extreme"):
         ctx.tally(f"{label}:extreme-magnitudes")
@@ -635,11 +639,19 @@ def run(ctx):
         if g is not None:
             glits.append(g)
             kept.append(c)
-    bad = core.model_mismatches("C13", IMPORTS, "check_case", glits, chunk=250)
+    # the extreme-magnitude cases carry 300-digit rationals: vm_compute needs about a second each, so they go into small
+    # shards of their own (compiled in parallel) and, in the quick tier, only a sample of them is run through the model
+    # (the exact-rational oracle above has judged all of them)
+    ext = [i for i, c in enumerate(kept) if c.get("family") == "extreme"]
+    ext_run = ext if not ctx.quick else ext[:: max(1, len(ext) // 90)]
+    ordinary = [i for i, c in enumerate(kept) if c.get("family") != "extreme"]
+    bad = [ordinary[j] for j in core.model_mismatches("C13", IMPORTS, "check_case", [glits[i] for i in ordinary], chunk=250)]
+    bad += [ext_run[j] for j in core.model_mismatches("C13_extreme", IMPORTS, "check_case", [glits[i] for i in ext_run], chunk=6)]
+    ctx.notes["extreme_cases_through_model"] = f"{len(ext_run)} of {len(ext)}"
     for i in bad[:5]:
         ctx.violation("correspondence", "model-vs-impl", "the Coq model of the termination criteria / SPSA checker and the implementation answer differently",
                       kept[i], detail=dict(gallina=glits[i][:3000]))
-    ctx.traces = len(glits)
+    ctx.traces = len(ordinary) + len(ext_run)
     ctx.notes["skipped_near_threshold"] = ctx.dist.get("skipped:near-threshold", 0)
 
 
